@@ -6,7 +6,7 @@ package main
 //
 //   * initOnly: the package initialiser, the declared init functions and the
 //     unexported functions all of whose callers (call graph, VTA) are initOnly.
-//   * a package variable is READ-ONLY when every mention of it outside initOnly
+//   * a package variable is READ-ONLY when it is unexported and every mention of it outside initOnly
 //     functions is a load, or an element / field address that is only loaded
 //     from, and every value so obtained that can still alias the variable's
 //     memory (slices, pointers, structs holding them) is itself only indexed,
@@ -230,7 +230,8 @@ func (w *World) readOnlyGlobals() map[*ssa.Global]bool {
 	}
 	out := map[*ssa.Global]bool{}
 	for _, m := range w.Pkg.Members {
-		if g, ok := m.(*ssa.Global); ok && !bad[g] {
+		// an exported variable can be assigned by any importer: never read-only
+		if g, ok := m.(*ssa.Global); ok && !bad[g] && !token.IsExported(g.Name()) {
 			out[g] = true
 		}
 	}
